@@ -927,3 +927,17 @@ package xmpp
 //@   callsite (*Session).Close#1
 //@     after: viaClose = true
 //@   ensures[C10] viaClose
+
+// ---------------------------------------------------------------------------
+// C04: cancellation reaches blocked I/O. When the negotiation context ends,
+// the watchdog interrupts both directions of the connection (a deadline in the
+// past on reads and writes alike) and waits for nothing else; the write
+// watchdog used while sending does the same for writes.
+//@ func setDeadline$1
+//@   cancellable[C04]
+//@   callsite (net.Conn).SetDeadline#1
+//@     assert[C04] arg0 == conn && arg1 == aLongTimeAgo
+//@ func setWriteDeadline$1
+//@   cancellable[C04]
+//@   callsite (net.Conn).SetWriteDeadline#1
+//@     assert[C04] arg0 == conn && arg1 == aLongTimeAgo
